@@ -135,11 +135,28 @@ pub fn expected_findings(root: &str, pats: &[Det], out: &mut Vec<Finding>) -> Re
             expected_findings(&p, pats, out)?;
         } else if eligible(&n) && !dont_care_name(&n) {
             let text = std::fs::read_to_string(&p).map_err(|e| format!("read {}: {}", p, e))?;
-            for d in pats {
-                let lines = guarded(|| d.lines(&text, 0)).map_err(|e| format!("per-file analysis panicked: {:?}", e))?;
-                if !lines.is_empty() {
-                    out.push((d.name().to_string(), n.clone(), lines.into_iter().collect()));
-                }
+            // every file in a thread of its own: whatever per-thread state the library may keep starts empty, so the
+            // expectation for one file cannot be coloured by the files analysed before it
+            let pats_v: Vec<Det> = pats.to_vec();
+            let per_file: Result<Vec<(String, Vec<i32>)>, String> = std::thread::scope(|s| {
+                std::thread::Builder::new()
+                    .stack_size(1 << 30)
+                    .spawn_scoped(s, || {
+                        let mut v = vec![];
+                        for d in &pats_v {
+                            let lines = guarded(|| d.lines(&text, 0)).map_err(|e| format!("per-file analysis panicked: {:?}", e))?;
+                            if !lines.is_empty() {
+                                v.push((d.name().to_string(), lines.into_iter().collect()));
+                            }
+                        }
+                        Ok(v)
+                    })
+                    .map_err(|e| e.to_string())?
+                    .join()
+                    .map_err(|_| "per-file analysis thread died".to_string())?
+            });
+            for (dn, lines) in per_file? {
+                out.push((dn, n.clone(), lines));
             }
         }
     }
@@ -417,7 +434,7 @@ fn gen_tree_eligible_in(rng: &Rng, pool: &Pool, depth: usize, max_files: usize, 
         }
     }
     // large twins: more than 128 KiB, the same length, the same first and last 64 KiB, another middle
-    if rng.chance(1, 12) {
+    if rng.chance(1, 5) {
         let n = format!("BigTwin{}.sol", rng.below(3));
         if used.insert(n.clone()) {
             let body = if rng.chance(1, 2) { same_length_edit(twin).unwrap_or_else(|| twin.to_string()) } else { twin.to_string() };
